@@ -37,6 +37,12 @@ def case(rng, n=None, choices=None, with_adv=None, fresh=None):
     ops = ["clock"]
     if not fresh:
         ops.append("touch res=a")
+    x = rng.random()
+    if x < 0.12:
+        # queued (Wait) verdicts and rejections on the shared node (seed C14-e): a throttling / isolation rule on the resource
+        ops.append("m fam=flow op=loadall rules=x1@a@h4")
+    elif x < 0.2:
+        ops.append("m fam=iso op=loadall rules=x1@a@c1")
     for t in range(n):
         ops += prog(rng, t, "a", with_adv)
     ops.append(fmt(choices if choices is not None else sched(rng, n)))
